@@ -765,7 +765,7 @@ func runC09(e *Env) {
 		good := false
 		if len(ws) == 1 {
 			if errv := flow.ErrResult(ws[0]); errv != nil {
-				nn, known := flow.ErrNonNil(flow.DomConds(ret.Block()), errv)
+				nn, known := flow.ErrKnownAt(errv, ret)
 				good = known && !nn
 			}
 		}
@@ -785,7 +785,7 @@ func runC09(e *Env) {
 				errv := flow.ErrResult(cs)
 				good := false
 				if errv != nil {
-					nn, known := flow.ErrNonNil(flow.DomConds(c.Block()), errv)
+					nn, known := flow.ErrKnownAt(errv, c)
 					good = known && !nn
 				}
 				r.Check(good, "E3.order", "LoadFilter/"+calleeName(c)+"-after-"+calleeName(cs), p.Pos(c.Pos()),
@@ -1000,7 +1000,14 @@ func checkSandboxFlag(e *Env, p *load.Program, rule string) {
 		r.Unknown(rule, "sandbox.main", "", "not found")
 		return
 	}
-	ls := callsTo(mainFn, load.PkgRoot, "LoadFilter")
+	// the function of the command that loads the filter: main, or the driver it delegates to
+	var ls []*ssa.Call
+	for _, f := range p.SrcFuncs(load.PkgSandbox) {
+		if cs := callsTo(f, load.PkgRoot, "LoadFilter"); len(cs) > 0 {
+			ls = append(ls, cs...)
+			mainFn = f
+		}
+	}
 	if len(ls) == 0 {
 		// a helper of the command that receives the Filter and reaches LoadFilter
 		lf := p.Func(load.PkgRoot, "LoadFilter")
